@@ -10,6 +10,7 @@ import procoracle as po
 
 FAMILIES = ['process', 'fit', 'membrane', 'nicurve']
 BRIDGES = ['br_nicurve_', 'br_nonideal_', 'br_pfcall_', 'br_pfmul', 'br_measurements_', 'br_ea_', 'br_from_array_']
+LINT = True          # loop-shape lint of the four step loops (tracer/looplint.py)
 PROPS_V = 'Props/C05.v'
 EXTRA_TARGETS = ['Model/NumCheck.vo']
 BUDGET = {'quick': 10, 'thorough': 150}
@@ -116,7 +117,7 @@ def oracle(rng, tier):
 
 def correspondence(tier, seed):
     import corr_numeric
-    budget = {'process': 24}
+    budget = {'process': 24, 'nicurve': 12, 'fit': 8}
     if tier == 'thorough':
         budget = {k: v * 12 for k, v in budget.items()}
     return corr_numeric.run(seed, budget, nmax=30 if tier == 'quick' else 200, tag='C05')
